@@ -131,15 +131,50 @@ def canonical_sav(text):
     return d
 
 
-def run_guesser(tdir, argv, quit_after=None, session='default_run', keep_modules=False, keys=None, queue_cap=None, rng=None):
+def run_guesser(tdir, argv, quit_after=None, session='default_run', keep_modules=False, keys=None, queue_cap=None, rng=None, line_keys=None):
     """One 'process' of pcfg_guesser in the scratch tree `tdir`."""
     import threading as real_threading
     if not keep_modules:
         tree.use(tdir)
     run = Run()
     drv = Driver(quit_after, keys)
+    # line_keys = (k, [answers of input()], seconds): the real keypress() body is run synchronously at the k-th line boundary that the generating
+    # thread reaches inside lib_guesser after the keyboard thread exists (k = 0: only count the boundaries) - the schedule "main is preempted there,
+    # the keyboard thread runs until it blocks or ends"
+    line_state = {'n': 0, 'busy': False}
+    lib_prefix = os.path.join(os.path.realpath(tdir), 'lib_guesser') + os.sep
+
+    def local_trace(frame, event, arg):
+        if event == 'line' and not line_state['busy'] and drv.kb_target is not None:
+            line_state['n'] += 1
+            if line_keys and line_state['n'] == line_keys[0]:
+                line_state['busy'] = True
+                try:
+                    answers = list(line_keys[1])
+                    drv.clock = float(line_keys[2])
+
+                    def fake_input(*a):
+                        if not answers:
+                            raise EOFError('EOF when reading a line')
+                        return answers.pop(0)
+                    drv.cs.input = fake_input
+                    drv.kb_target(*drv.kb_args)
+                    if drv.pcfg is not None and drv.pcfg.should_exit:
+                        drv.fired = True
+                finally:
+                    line_state['busy'] = False
+        return local_trace
+
+    def global_trace(frame, event, arg):
+        if line_state['busy']:
+            return None
+        fn = frame.f_code.co_filename
+        if fn.startswith(lib_prefix) or os.path.realpath(fn).startswith(lib_prefix):
+            return local_trace
+        return None
     out, err = io.StringIO(), io.StringIO()
     old_argv = sys.argv
+    saved_random = {}
     sys.argv = [os.path.join(tdir, 'pcfg_guesser.py')] + list(argv)
     try:
         with contextlib.redirect_stdout(out), contextlib.redirect_stderr(err):
@@ -148,7 +183,7 @@ def run_guesser(tdir, argv, quit_after=None, session='default_run', keep_modules
                 cs = sys.modules['lib_guesser.cracking_session']
                 gm = sys.modules['lib_guesser.pcfg_grammar']
                 cs.threading = _ShimThreading(drv, real_threading)
-                if keys is not None:
+                if keys is not None or line_keys is not None:
                     import time as real_time
                     drv.cs = cs
                     cs.time = _Clock(real_time, drv)
@@ -159,6 +194,12 @@ def run_guesser(tdir, argv, quit_after=None, session='default_run', keep_modules
                     hs = sys.modules.get('lib_guesser.honeyword_session')
                     if hs is not None:
                         hs.random = rng
+                    # ... and so are the functions of the real module (a function that was handed the module itself draws from those)
+                    import random as real_random_module
+                    for name in ('random', 'choice', 'seed', 'randint'):
+                        if hasattr(rng, name):
+                            saved_random[name] = getattr(real_random_module, name)
+                            setattr(real_random_module, name, getattr(rng, name))
                 if queue_cap is not None:
                     # PcfgQueue.max_queue_size (50000 in the code, "used for memory management") scaled down to the size of the harness rulesets
                     Q = sys.modules['lib_guesser.priority_queue'].PcfgQueue
@@ -199,7 +240,13 @@ def run_guesser(tdir, argv, quit_after=None, session='default_run', keep_modules
                 G.print_guess = print_guess
                 G.create_guesses = create_guesses
                 G.restore_omen = restore_omen
-                pg.main()
+                if line_keys is not None:
+                    sys.settrace(global_trace)
+                try:
+                    pg.main()
+                finally:
+                    if line_keys is not None:
+                        sys.settrace(None)
             except SystemExit as e:
                 run.exc = 'SystemExit(%r)' % (e.code,)
             except BaseException as e:   # noqa
@@ -207,6 +254,10 @@ def run_guesser(tdir, argv, quit_after=None, session='default_run', keep_modules
                 run.exc = traceback.format_exc()
     finally:
         sys.argv = old_argv
+        if saved_random:
+            import random as real_random_module
+            for name, fn in saved_random.items():
+                setattr(real_random_module, name, fn)
     text = out.getvalue()
     run.stdout = text.split('\n')
     if run.stdout and run.stdout[-1] == '':
@@ -214,6 +265,7 @@ def run_guesser(tdir, argv, quit_after=None, session='default_run', keep_modules
     run.stderr = err.getvalue()
     run.quit_fired_at = drv.nguess if drv.fired else None
     run.fired = drv.fired
+    run.line_events = line_state['n']
     sav = os.path.join(tdir, session + '.sav')
     if os.path.exists(sav):
         with open(sav) as f:
